@@ -293,6 +293,12 @@ theorem never_arm_accepted_values (d : RotoV.Unify.Defs) (s : RotoV.Unify.Store)
     RotoV.Unify.planArmsWith true d s 1 .never (.name 6 []) = .same (.name 6 []) := by
   rfl
 
+/-- non-vacuity of the hypotheses of `unify_sound_partial`: a well-formed history -/
+example :
+    let ops : List RotoV.Unify.Op := [.fresh .iv [], .fresh (.rv [0]) [(0, .intVar 0 false)], .mark (.intVar 0 false),
+      .unify (.recordVar 1 [(0, .intVar 0 false)]) (.record [(0, .name 6 [])])]
+    (ops.all fun op => op.ok (RotoV.Unify.kindOf ops)) = true := by decide
+
 /-- non-vacuity: `let y = 1; -y;` then `y` against `i32` unifies, against `u32` does not -/
 example :
     let d : RotoV.Unify.Defs := fun n => if n < 4 then .int false else if n < 8 then .int true else .other
